@@ -1,10 +1,12 @@
 (* C10 -- the two repaired variants of _VersionConverter.visit_model (proposed_fixes/ready/C10_01, C10_02):
      own    : the nodes of a function are read at the opset the FUNCTION imports (falling back to the model's);
               all imports are read before anything is modified;
+     minchk : before anything is modified, a default-domain node whose version lies below SUPPORTED_MIN_ONNX_OPSET makes
+              the converter raise VersionConverterError (no adapters exist there; C10_03);
      refuse : before anything is modified, every node (recursively) is checked for a conversion no adapter can
               complete -- QuantizeLinear below 19 with an int32 x and a non-int32 y_scale going to 19..22 -- and
               VersionConverterError is raised.
-   own = refuse = false is Model.convert_native (Model2Proofs.native2_off).  No proofs in this file. *)
+   own = refuse = minchk = false is Model.convert_native (Model2Proofs.native2_off).  No proofs in this file. *)
 From Coq Require Import ZArith List Bool String.
 Import ListNotations.
 Require Import OV.Version.Model.
@@ -37,8 +39,16 @@ Fixpoint refuses (t : Z) (dv : option Z) (n : node) : bool :=
     || existsb (refuses t dv) sb
   end.
 
+(* repaired variant C10_03: a default-domain node (recursively) whose version is below the supported minimum *)
+Fixpoint below_min (smin : Z) (dv : option Z) (n : node) : bool :=
+  match n with
+  | Node _ d v _ _ _ _ sb =>
+    (d && match (match v with Some x => Some x | None => dv end) with Some nv => nv <? smin | None => false end)
+    || existsb (below_min smin dv) sb
+  end.
+
 Section Native2.
-  Variables own refuse : bool.
+  Variables own refuse minchk : bool.
   Variable adapt : adapter.
   Variables smin smax : Z.
   Variable fuel : nat.
@@ -74,8 +84,10 @@ Section Native2.
         match versions_of dv (m_funcs M) with
         | None => MRaised EOpsetConflict M []
         | Some fvs =>
-          if refuse && (existsb (refuses t dv) (m_graph M)
-                        || existsb (fun p => existsb (refuses t (snd p)) (f_nodes (fst p))) fvs)
+          if (refuse && (existsb (refuses t dv) (m_graph M)
+                         || existsb (fun p => existsb (refuses t (snd p)) (f_nodes (fst p))) fvs))
+             || (minchk && (existsb (below_min smin dv) (m_graph M)
+                            || existsb (fun p => existsb (below_min smin (snd p)) (f_nodes (fst p))) fvs))
           then MRaised ERefused M []
           else
             match conv adapt t dv fuel (m_graph M) with
